@@ -2,7 +2,7 @@ import KeepVerif.Model.C19Wire
 /-!
 # C19 model: every `Unmarshal` of the anchored files followed by the type's own `Marshal`
 
-`unmarshal ty bytes : Option (Option Bytes)`
+`unmarshal oracle typeId bytes : Option (Option Bytes)`
 * `none`            – unknown type, or a needed library-parse result is missing from the oracle (`SKIP`)
 * `some none`       – `Unmarshal` returns an error
 * `some (some out)` – accepted; `out` = canonical re-marshal (deterministic map order)
@@ -10,22 +10,34 @@ import KeepVerif.Model.C19Wire
 The model is a total function, it has no third outcome: a panic of the Go code is a disagreement.
 Models follow the code of the *repaired* tree (fix commits recorded in findings/C19.json); the
 behaviour of the unrepaired `signer.Unmarshal` and gjkr accusation decoders is modelled separately
-(`signerOrig`, `accusationsOrig`) for the counterexample theorems.
+(`signerOrig`, `accusationsOrig`, `…OrigIndex`) for the counterexample theorems.
+
+Every decoder is a `MsgSpec`: a wire schema (field number + kind, nested messages and map
+entries kept as parsed field lists) and keep-core's post-decoding validation/normalisation
+`post`. The generic theorems of `Proofs/C19Flat.lean` hold for every `MsgSpec`.
 -/
 namespace KeepVerif.C19
 
-/-! ## generic flat message specs (scalar fields only) — the part with the generic theorem -/
+/-! ## message specs -/
 
 inductive Kind where
   | u32 | u64 | bytes | str
-  | i32   -- kept as the raw 64-bit varint value; the sign is interpreted by `post`
-  | rbytes -- repeated bytes / string-free repeated field: every occurrence, in order
+  | i32     -- kept as the raw 64-bit varint value; the sign is interpreted by `post`
+  | rbytes  -- repeated bytes
+  | rstr    -- repeated string (each occurrence UTF-8 checked)
+  | packed  -- repeated uint64: packed and unpacked occurrences accepted, packed emitted
+  | msg     -- singular embedded message: occurrences are parsed and merged
+  | rmsg (code : Nat)  -- repeated embedded message (code 16) / map field = repeated entry
+                       -- message {1: key, 2: value} (code 22 map<uint32,bytes>, 26 map<uint32,message>)
   deriving DecidableEq, Repr
 
 inductive Val where
   | n (v : Nat)
   | b (bs : Bytes)
   | l (xs : List Bytes)
+  | ns (xs : List Nat)
+  | m (sub : Option (List Field))   -- `none` = absent (nil pointer)
+  | ms (subs : List (List Field))
   deriving DecidableEq, Repr
 
 structure FSpec where
@@ -33,24 +45,41 @@ structure FSpec where
   kind : Kind
   deriving DecidableEq, Repr
 
+/-- singular embedded message: every occurrence must parse; occurrences merge (= concatenation
+    of their field lists). `none` = wire error, `some none` = absent. -/
+def subMsg (fs : List Field) (num : Nat) : Option (Option (List Field)) :=
+  match (lens fs num).mapM parseMsg with
+  | none => none
+  | some [] => some none
+  | some ps => some (some ps.flatten)
+
 /-- typed decoding of one declared field from the parsed field list -/
 def decField (fs : List Field) (s : FSpec) : Option Val :=
   match s.kind with
   | .u32 => some (.n (lastVarint fs s.num % 4294967296))
   | .u64 => some (.n (lastVarint fs s.num))
   | .i32 => some (.n (lastVarint fs s.num))
-  | .rbytes => some (.l (lens fs s.num))
   | .bytes => some (.b (lastLen fs s.num))
   | .str => if (lens fs s.num).all isUtf8 then some (.b (lastLen fs s.num)) else none
+  | .rbytes => some (.l (lens fs s.num))
+  | .rstr => if (lens fs s.num).all isUtf8 then some (.l (lens fs s.num)) else none
+  | .packed => (u64s fs s.num).map .ns
+  | .msg => (subMsg fs s.num).map .m
+  | .rmsg _ => ((lens fs s.num).mapM parseMsg).map .ms
 
 def decFlat (S : List FSpec) (fs : List Field) : Option (List Val) := S.mapM (decField fs)
 
-/-- proto3 encoding of one scalar field: default values are omitted -/
+/-- proto3 encoding of one field: scalar defaults are omitted, a non-nil embedded message is
+    always emitted (also when empty), repeated scalars are packed -/
 def encField (s : FSpec) (v : Val) : List Field :=
   match v with
   | .n v => if v = 0 then [] else [(s.num, .varint v)]
   | .b b => if b = [] then [] else [(s.num, .len b)]
   | .l xs => xs.map fun b => (s.num, WVal.len b)
+  | .ns xs => if xs = [] then [] else [(s.num, .len (xs.flatMap putVarint))]
+  | .m none => []
+  | .m (some sub) => [(s.num, .len (putFields sub))]
+  | .ms subs => subs.map fun sub => (s.num, WVal.len (putFields sub))
 
 def encFlat : List FSpec → List Val → List Field
   | s :: S, v :: vs => encField s v ++ encFlat S vs
@@ -58,21 +87,27 @@ def encFlat : List FSpec → List Val → List Field
 
 /-- numeric form of a schema, compared with the lists generated from the Go descriptors -/
 def Kind.code : Kind → Nat
-  | .u32 => 0 | .u64 => 1 | .bytes => 2 | .str => 3 | .i32 => 4 | .rbytes => 12
+  | .u32 => 0 | .u64 => 1 | .bytes => 2 | .str => 3 | .i32 => 4 | .rbytes => 12 | .rstr => 13
+  | .packed => 11 | .msg => 6 | .rmsg c => c
 def schemaCode (S : List FSpec) : List Nat := S.flatMap fun s => [s.num, s.kind.code]
 
-/-- a flat message type: wire schema + keep-core's post-decoding validation / normalisation -/
+/-- a message type: wire schema + keep-core's post-decoding validation / normalisation -/
 structure MsgSpec where
   fields : List FSpec
   post : List Val → Option (List Val)
+
+/-- field-list level (used for embedded messages) -/
+def MsgSpec.unmarshalF (M : MsgSpec) (fs : List Field) : Option (List Field) := do
+  let vs ← decFlat M.fields fs
+  let vs' ← M.post vs
+  pure (encFlat M.fields vs')
 
 def MsgSpec.marshal (M : MsgSpec) (vs : List Val) : Bytes := putFields (encFlat M.fields vs)
 
 def MsgSpec.unmarshal (M : MsgSpec) (bs : Bytes) : Option Bytes := do
   let fs ← parseMsg bs
-  let vs ← decFlat M.fields fs
-  let vs' ← M.post vs
-  pure (M.marshal vs')
+  let out ← M.unmarshalF fs
+  pure (putFields out)
 
 /-! ## helpers of the keep-core side -/
 
@@ -87,6 +122,16 @@ def natOfBytes (bs : Bytes) : Nat := bs.foldl (fun a b => a * 256 + b) 0
 def idxOk (v : Nat) : Bool := decide (v ≤ 255)
 
 def guard' (c : Bool) : Option Unit := if c then some () else none
+
+def fU (num v : Nat) : List Field := if v = 0 then [] else [(num, .varint v)]
+def fB (num : Nat) (b : Bytes) : List Field := if b = [] then [] else [(num, .len b)]
+/-- a non-nil embedded message is always emitted, also when empty -/
+def fM (num : Nat) (sub : List Field) : List Field := [(num, .len (putFields sub))]
+def rep (num : Nat) (xs : List Bytes) : List Field := xs.map fun b => (num, WVal.len b)
+
+/-- like `subMsg` but absent = empty (nil-safe getters) -/
+def subMsgD (fs : List Field) (num : Nat) : Option (List Field) :=
+  (subMsg fs num).map (·.getD [])
 
 /-! ### flat specs -/
 
@@ -173,109 +218,6 @@ def signingDone : MsgSpec where
       else none
     | _ => none
 
-/-! ## messages with repeated fields, maps and sub-messages (hand-composed) -/
-
-def fU (num v : Nat) : List Field := if v = 0 then [] else [(num, .varint v)]
-def fB (num : Nat) (b : Bytes) : List Field := if b = [] then [] else [(num, .len b)]
-/-- a non-nil embedded message is always emitted, also when empty -/
-def fM (num : Nat) (sub : List Field) : List Field := [(num, .len (putFields sub))]
-
-/-- singular embedded message: every occurrence must parse; occurrences merge (= concatenation
-    of their field lists). `none` = wire error, `some none` = absent. -/
-def subMsg (fs : List Field) (num : Nat) : Option (Option (List Field)) :=
-  match (lens fs num).mapM parseMsg with
-  | none => none
-  | some [] => some none
-  | some ps => some (some ps.flatten)
-
-/-- like `subMsg` but absent = empty (nil-safe getters) -/
-def subMsgD (fs : List Field) (num : Nat) : Option (List Field) :=
-  (subMsg fs num).map (·.getD [])
-
-def strOk (fs : List Field) (num : Nat) : Bool := (lens fs num).all isUtf8
-
-def mapInsert {α} (k : Nat) (v : α) : List (Nat × α) → List (Nat × α)
-  | [] => [(k, v)]
-  | (k', v') :: r =>
-    if k < k' then (k, v) :: (k', v') :: r
-    else if k = k' then (k, v) :: r
-    else (k', v') :: mapInsert k v r
-
-/-- `map<uint32, bytes>` field: entries in key order, later entries replace earlier ones -/
-def mapBytes (fs : List Field) (num : Nat) : Option (List (Nat × Bytes)) := do
-  let es ← (lens fs num).mapM parseMsg
-  pure (es.foldl (fun m e => mapInsert (lastVarint e 1 % 4294967296) (lastLen e 2) m) [])
-
-def encMapBytes (num : Nat) (m : List (Nat × Bytes)) : List Field :=
-  m.map fun (k, v) => (num, .len (putFields [(1, .varint k), (2, .len v)]))
-
-/-- sender / map of per-member payloads / session  (`mapNum`, `sessNum` vary) with an optional
-    broadcast payload at field 2; `cv` validates and normalises one map value -/
-def mapMsg (bcast : Bool) (mapNum sessNum : Nat) (cv : Bytes → Option Bytes)
-    (bs : Bytes) : Option Bytes := do
-  let fs ← parseMsg bs
-  let m ← mapBytes fs mapNum
-  guard' (strOk fs sessNum)
-  let s := lastVarint fs 1 % 4294967296
-  guard' (idxOk s)
-  guard' (m.all fun (k, _) => idxOk k)
-  let m' ← m.mapM fun (k, v) => (cv v).map fun v' => (k, v')
-  pure (putFields (fU 1 s ++ (if bcast then fB 2 (lastLen fs 2) else []) ++
-    encMapBytes mapNum m' ++ fB sessNum (lastLen fs sessNum)))
-
-/-- `ephemeral.UnmarshalPrivateKey(b).Marshal()`: big-endian integer left-padded to 32 bytes -/
-def privNorm (b : Bytes) : Bytes :=
-  let s := stripZeros b
-  List.replicate (32 - s.length) 0 ++ s
-
-/-- accused / misbehaved members' private keys: non-empty, normalised -/
-def privCv (v : Bytes) : Option Bytes := if v = [] then none else some (privNorm v)
-
-/-- gjkr `PeerShares`: map<uint32, Shares{bytes, bytes}> (a missing value is an empty message) -/
-def peerShares (bs : Bytes) : Option Bytes := do
-  let fs ← parseMsg bs
-  let es ← (lens fs 2).mapM parseMsg
-  let vals ← es.mapM fun e => do
-    let v ← subMsgD e 2
-    pure (lastVarint e 1 % 4294967296, (lastLen v 1, lastLen v 2))
-  let m := vals.foldl (fun m (kv : Nat × Bytes × Bytes) => mapInsert kv.1 kv.2 m) []
-  guard' (strOk fs 3)
-  let s := lastVarint fs 1 % 4294967296
-  guard' (idxOk s)
-  guard' (m.all fun (k, _) => idxOk k)
-  pure (putFields (fU 1 s ++
-    m.map (fun (k, (a, b)) => ((2, WVal.len (putFields [(1, WVal.varint k), (2, WVal.len (putFields (fB 1 a ++ fB 2 b)))])) : Field)) ++
-    fB 3 (lastLen fs 3)))
-
-/-- repeated uint64: unpacked occurrences and packed blocks, in order -/
-def u64s (fs : List Field) (num : Nat) : Option (List Nat) :=
-  let rec unpack : Nat → Bytes → Option (List Nat)
-    | 0, _ => none
-    | fuel + 1, bs =>
-      if bs = [] then some [] else
-      match getVarint 10 bs with
-      | some (v, r) => (unpack fuel r).map (v :: ·)
-      | none => none
-  (fs.mapM fun (f : Field) => match f with
-    | (n, WVal.varint v) => if n = num then some [v] else some []
-    | (n, WVal.len b) => if n = num then unpack (b.length + 1) b else some []
-    | _ => some []).map List.flatten
-
-def packed (num : Nat) (vs : List Nat) : List Field :=
-  if vs = [] then [] else [(num, .len (vs.flatMap putVarint))]
-
-/-- `big.NewInt(int64(v)).Uint64()` -/
-def absInt64 (v : Nat) : Nat := if v < 9223372036854775808 then v else 18446744073709551616 - v
-
-def depositSweep (bs : Bytes) : Option Bytes := do
-  let fs ← parseMsg bs
-  let keys ← (lens fs 1).mapM parseMsg
-  let blocks ← u64s fs 3
-  guard' (keys.all fun k => (lastLen k 1).length == 32)
-  pure (putFields (
-    keys.map (fun k => (1, WVal.len (putFields (fB 1 (lastLen k 1) ++ fU 2 (lastVarint k 2 % 4294967296))))) ++
-    fB 2 (stripZeros (lastLen fs 2)) ++ packed 3 (blocks.map absInt64)))
-
 def redemptionSpec : MsgSpec where
   fields := [⟨1, .rbytes⟩, ⟨2, .bytes⟩]
   post
@@ -288,32 +230,108 @@ def movingFundsSpec : MsgSpec where
     | [.l ws, .b fee] => if ws.all (fun w => w.length == 20) then some [.l ws, .b (stripZeros fee)] else none
     | _ => none
 
-def redemption (bs : Bytes) : Option Bytes := redemptionSpec.unmarshal bs
-def movingFunds (bs : Bytes) : Option Bytes := movingFundsSpec.unmarshal bs
+/-! ### map fields: repeated entry messages, last entry per key wins, emitted in key order -/
+
+def mapInsert {α} (k : Nat) (v : α) : List (Nat × α) → List (Nat × α)
+  | [] => [(k, v)]
+  | (k', v') :: r =>
+    if k < k' then (k, v) :: (k', v') :: r
+    else if k = k' then (k, v) :: r
+    else (k', v') :: mapInsert k v r
+
+/-- the Go map built from the entries in wire order -/
+def toMap {α} (kvs : List (Nat × α)) : List (Nat × α) :=
+  kvs.foldl (fun m kv => mapInsert kv.1 kv.2 m) []
+
+/-- key / value of a `map<uint32, bytes>` entry (missing = default) -/
+def kvOf (e : List Field) : Nat × Bytes := (lastVarint e 1 % 4294967296, lastLen e 2)
+
+/-- Go always emits both the key and the value of a map entry -/
+def entryOf (kv : Nat × Bytes) : List Field := [(1, .varint kv.1), (2, .len kv.2)]
+
+/-- validation of a decoded `map<uint32, bytes>`: every key a member index, every value accepted
+    and normalised by `cv` -/
+def mapPost (cv : Bytes → Option Bytes) (es : List (List Field)) : Option (List (List Field)) := do
+  let m := toMap (es.map kvOf)
+  guard' (m.all fun kv => idxOk kv.1)
+  let m' ← m.mapM fun kv => (cv kv.2).map fun v' => (kv.1, v')
+  pure (m'.map entryOf)
+
+/-- sender / map / session -/
+def mapSpec3 (cv : Bytes → Option Bytes) : MsgSpec where
+  fields := [⟨1, .u32⟩, ⟨2, .rmsg 22⟩, ⟨3, .str⟩]
+  post
+    | [.n s, .ms es, .b sess] =>
+      if idxOk s then (mapPost cv es).map fun es' => [.n s, .ms es', .b sess] else none
+    | _ => none
+
+/-- sender / broadcast payload / map / session -/
+def mapSpec4 (cv : Bytes → Option Bytes) : MsgSpec where
+  fields := [⟨1, .u32⟩, ⟨2, .bytes⟩, ⟨3, .rmsg 22⟩, ⟨4, .str⟩]
+  post
+    | [.n s, .b p, .ms es, .b sess] =>
+      if idxOk s then (mapPost cv es).map fun es' => [.n s, .b p, .ms es', .b sess] else none
+    | _ => none
+
+/-- `ephemeral.UnmarshalPrivateKey(b).Marshal()`: big-endian integer left-padded to 32 bytes -/
+def privNorm (b : Bytes) : Bytes :=
+  let s := stripZeros b
+  List.replicate (32 - s.length) 0 ++ s
+
+/-- accused / misbehaved members' private keys: non-empty, normalised -/
+def privCv (v : Bytes) : Option Bytes := if v = [] then none else some (privNorm v)
+
+/-- gjkr `PeerShares`: map<uint32, Shares{bytes, bytes}> (a missing value is an empty message) -/
+def peerSharesSpec : MsgSpec where
+  fields := [⟨1, .u32⟩, ⟨2, .rmsg 26⟩, ⟨3, .str⟩]
+  post
+    | [.n s, .ms es, .b sess] => do
+      guard' (idxOk s)
+      let vals ← es.mapM fun e => do
+        let v ← subMsgD e 2
+        pure (lastVarint e 1 % 4294967296, (lastLen v 1, lastLen v 2))
+      let m := toMap vals
+      guard' (m.all fun kv => idxOk kv.1)
+      pure [.n s, .ms (m.map fun kv =>
+        [(1, WVal.varint kv.1), (2, WVal.len (putFields (fB 1 kv.2.1 ++ fB 2 kv.2.2)))]), .b sess]
+    | _ => none
+
+/-- `big.NewInt(int64(v)).Uint64()` -/
+def absInt64 (v : Nat) : Nat := if v < 9223372036854775808 then v else 18446744073709551616 - v
+
+def depositSweepSpec : MsgSpec where
+  fields := [⟨1, .rmsg 16⟩, ⟨2, .bytes⟩, ⟨3, .packed⟩]
+  post
+    | [.ms keys, .b fee, .ns blocks] =>
+      if keys.all (fun k => (lastLen k 1).length == 32) then
+        some [.ms (keys.map fun k => fB 1 (lastLen k 1) ++ fU 2 (lastVarint k 2 % 4294967296)),
+              .b (stripZeros fee), .ns (blocks.map absInt64)]
+      else none
+    | _ => none
 
 /-- `unmarshalCoordinationProposal` + the proposal's `Marshal` -/
 def proposal (actionType : Nat) (payload : Bytes) : Option Bytes :=
   match actionType with
   | 0 => some []
   | 1 => heartbeat.unmarshal payload
-  | 2 => depositSweep payload
-  | 3 => redemption payload
-  | 4 => movingFunds payload
+  | 2 => depositSweepSpec.unmarshal payload
+  | 3 => redemptionSpec.unmarshal payload
+  | 4 => movingFundsSpec.unmarshal payload
   | 5 => movedFundsSweep.unmarshal payload
   | _ => none
 
-def coordination (bs : Bytes) : Option Bytes := do
-  let fs ← parseMsg bs
-  let p ← subMsg fs 4
-  let s := lastVarint fs 1 % 4294967296
-  guard' (idxOk s)
-  guard' ((lastLen fs 3).length == 20)
-  let p ← p
-  let at_ := lastVarint p 1 % 4294967296
-  let pl ← proposal at_ (lastLen p 2)
-  pure (putFields (fU 1 s ++ fU 2 (lastVarint fs 2) ++ fB 3 (lastLen fs 3) ++ fM 4 (fU 1 at_ ++ fB 2 pl)))
+def coordinationSpec : MsgSpec where
+  fields := [⟨1, .u32⟩, ⟨2, .u64⟩, ⟨3, .bytes⟩, ⟨4, .msg⟩]
+  post
+    | [.n s, .n blk, .b h, .m (some p)] =>
+      if idxOk s && h.length == 20 then
+        let at_ := lastVarint p 1 % 4294967296
+        (proposal at_ (lastLen p 2)).map fun pl =>
+          [.n s, .n blk, .b h, .m (some (fU 1 at_ ++ fB 2 pl))]
+      else none
+    | _ => none          -- in particular `.m none`: "missing proposal"
 
-/-- `LocalPreParams`-shaped message (paillier key nested `depth` levels), all big integers -/
+/-- `LocalPreParams`-shaped message (paillier public key nested or flat), all big integers -/
 def preParamsFields (nestedPk : Bool) (lpp : List Field) : Option (List Field) := do
   let sk ← subMsgD lpp 1
   let pkField ← if nestedPk then do
@@ -331,16 +349,18 @@ def toInt32 (v : Nat) : Int :=
 def ofInt64 (i : Int) : Nat := (i % 18446744073709551616).toNat
 
 /-- `tecdsa/dkg.PreParams`: `timestamppb.New(ts.AsTime())` normalises (seconds, nanos) -/
-def preParams (bs : Bytes) : Option Bytes := do
-  let fs ← parseMsg bs
-  let data ← subMsgD fs 1
-  let ts ← subMsgD fs 2
-  let d ← preParamsFields true data
-  let sec := toInt64 (lastVarint ts 1)
-  let ns := toInt32 (lastVarint ts 2)
-  let sec' := ofInt64 (sec + ns / 1000000000)     -- Int `/` and `%` round towards −∞ for a positive divisor
-  let ns' := (ns % 1000000000).toNat
-  pure (putFields (fM 1 d ++ fM 2 (fU 1 sec' ++ fU 2 ns')))
+def preParamsSpec : MsgSpec where
+  fields := [⟨1, .msg⟩, ⟨2, .msg⟩]
+  post
+    | [.m data, .m ts] => do
+      let d ← preParamsFields true (data.getD [])
+      let t := ts.getD []
+      let sec := toInt64 (lastVarint t 1)
+      let ns := toInt32 (lastVarint t 2)
+      let sec' := ofInt64 (sec + ns / 1000000000)  -- Int `/`, `%` round towards −∞ for a positive divisor
+      let ns' := (ns % 1000000000).toNat
+      pure [.m (some d), .m (some (fU 1 sec' ++ fU 2 ns'))]
+    | _ => none
 
 /-! ### secp256k1 (btcec v0.22 `IsOnCurve` through `fieldVal.SetByteSlice`) -/
 
@@ -359,23 +379,27 @@ def ecPoint (pt : List Field) : Option (List Field) :=
   let y := stripZeros (lastLen pt 2)
   if onCurve x y then some (fB 1 x ++ fB 2 y) else none
 
-def rep (num : Nat) (xs : List Bytes) : List Field := xs.map fun b => (num, WVal.len b)
+/-- `tecdsa.PrivateKeyShare` (tss-lib `LocalPartySaveData`): big integers, curve points checked -/
+def privateKeyShareSpec : MsgSpec where
+  fields := [⟨1, .msg⟩]
+  post
+    | [.m od] => do
+      let data := od.getD []
+      let lpp ← subMsgD data 1
+      let secrets ← subMsgD data 2
+      let bigXj ← (lens data 7).mapM parseMsg
+      let pub ← subMsgD data 9
+      let lpp' ← preParamsFields false lpp
+      let bigXj' ← bigXj.mapM ecPoint
+      let pub' ← ecPoint pub
+      let strip := fun (i : Nat) => rep i ((lens data i).map stripZeros)
+      pure [.m (some (
+        fM 1 lpp' ++ fM 2 (fB 1 (stripZeros (lastLen secrets 1)) ++ fB 2 (stripZeros (lastLen secrets 2))) ++
+        strip 3 ++ strip 4 ++ strip 5 ++ strip 6 ++ bigXj'.map (fun p => (7, WVal.len (putFields p))) ++
+        strip 8 ++ fM 9 pub'))]
+    | _ => none
 
-def privateKeyShare (bs : Bytes) : Option Bytes := do
-  let fs ← parseMsg bs
-  let data ← subMsgD fs 1
-  let lpp ← subMsgD data 1
-  let secrets ← subMsgD data 2
-  let bigXj ← (lens data 7).mapM parseMsg
-  let pub ← subMsgD data 9
-  let lpp' ← preParamsFields false lpp
-  let bigXj' ← bigXj.mapM ecPoint
-  let pub' ← ecPoint pub
-  let strip := fun (i : Nat) => rep i ((lens data i).map stripZeros)
-  pure (putFields (fM 1 (
-    fM 1 lpp' ++ fM 2 (fB 1 (stripZeros (lastLen secrets 1)) ++ fB 2 (stripZeros (lastLen secrets 2))) ++
-    strip 3 ++ strip 4 ++ strip 5 ++ strip 6 ++ bigXj'.map (fun p => (7, WVal.len (putFields p))) ++
-    strip 8 ++ fM 9 pub')))
+def privateKeyShare (bs : Bytes) : Option Bytes := privateKeyShareSpec.unmarshal bs
 
 /-- `elliptic.Unmarshal(secp256k1, b)` accepted (then `elliptic.Marshal` gives `b` back) -/
 def uncompressedOk (b : Bytes) : Bool :=
@@ -383,19 +407,27 @@ def uncompressedOk (b : Bytes) : Bool :=
   natOfBytes ((b.drop 1).take 32) < secpP && natOfBytes (b.drop 33) < secpP &&
   onCurve ((b.drop 1).take 32) (b.drop 33)
 
-/-- repaired `tbtc.signer.Unmarshal` -/
-def signer (bs : Bytes) : Option Bytes := do
-  let fs ← parseMsg bs
-  let w ← subMsg fs 1
-  let w ← w                                    -- fix: missing wallet is an error
-  guard' (strOk w 2)
-  guard' (uncompressedOk (lastLen w 1))        -- fix: invalid public key is an error
-  guard' (idxOk (lastVarint fs 2 % 4294967296)) -- fix: index above 255 is an error (was truncated)
-  let pks ← privateKeyShare (lastLen fs 3)
-  pure (putFields (fM 1 (fB 1 (lastLen w 1) ++ rep 2 (lens w 2)) ++
-    fU 2 (lastVarint fs 2 % 4294967296) ++ fB 3 pks))
+/-- `pb.Wallet` -/
+def walletSpec : MsgSpec where
+  fields := [⟨1, .bytes⟩, ⟨2, .rstr⟩]
+  post
+    | [.b pk, .l ops] => if uncompressedOk pk then some [.b pk, .l ops] else none  -- fix c54bee6
+    | _ => none
 
-/-- outcome of the code before the repair: `none` = the Go code panics -/
+/-- repaired `tbtc.signer.Unmarshal` -/
+def signerSpec : MsgSpec where
+  fields := [⟨1, .msg⟩, ⟨2, .u32⟩, ⟨3, .bytes⟩]
+  post
+    | [.m (some w), .n i, .b pks] => do
+      let w' ← walletSpec.unmarshalF w
+      guard' (idxOk i)                         -- fix 33a5031 (was truncated to uint8)
+      let pks' ← privateKeyShare pks
+      pure [.m (some w'), .n i, .b pks']
+    | _ => none                                -- `.m none`: fix c54bee6, missing wallet is an error
+
+def signer (bs : Bytes) : Option Bytes := signerSpec.unmarshal bs
+
+/-- outcome of the code before the repair: `panic` = the Go code panics -/
 inductive Orig where
   | panic | err | ok (out : Bytes)
   deriving DecidableEq, Repr
@@ -407,17 +439,18 @@ def signerOrig (bs : Bytes) : Orig :=
   match parseMsg bs with
   | none => .err
   | some fs =>
-    match subMsg fs 1 with
-    | none => .err
-    | some none => .panic
-    | some (some w) =>
-      if !strOk w 2 then .err else
-      match privateKeyShare (lastLen fs 3) with
-      | none => .err
-      | some pks =>
-        if !uncompressedOk (lastLen w 1) then .panic   -- accepted; re-marshal dereferences nil X/Y
-        else .ok (putFields (fM 1 (fB 1 (lastLen w 1) ++ rep 2 (lens w 2)) ++
-          fU 2 (lastVarint fs 2 % 4294967296 % 256) ++ fB 3 pks))
+    match decFlat signerSpec.fields fs with
+    | some [.m none, _, _] => .panic
+    | some [.m (some w), .n i, .b pks] =>
+      match decFlat walletSpec.fields w with
+      | some [.b pk, .l ops] =>
+        match privateKeyShare pks with
+        | none => .err
+        | some pks' =>
+          if !uncompressedOk pk then .panic   -- accepted; re-marshal dereferences nil X/Y
+          else .ok (signerSpec.marshal [.m (some (encFlat walletSpec.fields [.b pk, .l ops])), .n (i % 256), .b pks'])
+      | _ => .err
+    | _ => .err
 
 /-- gjkr accusation messages as they were: the key-map error was swallowed (`return nil`) and the
     half-decoded message (sender only) accepted. -/
@@ -425,17 +458,15 @@ def accusationsOrig (bs : Bytes) : Option Bytes :=
   match parseMsg bs with
   | none => none
   | some fs =>
-    match mapBytes fs 2 with
-    | none => none
-    | some m =>
-      if !strOk fs 3 then none else
-      let s := lastVarint fs 1 % 4294967296
+    match decFlat (mapSpec3 privCv).fields fs with
+    | some [.n s, .ms es, .b sess] =>
       if !idxOk s then none else
-      if m.all (fun (k, v) => idxOk k && decide (v ≠ [])) then
-        mapMsg false 2 3 privCv bs
-      else some (putFields (fU 1 s))
+      match mapPost privCv es with
+      | some es' => some ((mapSpec3 privCv).marshal [.n s, .ms es', .b sess])
+      | none => some (putFields (fU 1 s))
+    | _ => none
 
-/-! ## types whose payloads are parsed by third-party libraries (parsing = oracle parameter) -/
+/-! ### payloads parsed by third-party libraries (parsing = oracle parameter) -/
 
 /-- results of the library parsers for the blobs of one input, as obtained from the real
     libraries by the harness: (kind, blob, `some canonical re-encoding` | `none` = rejected).
@@ -451,88 +482,114 @@ def olook (o : Oracle) (dflt : Bool) (kind : Nat) (b : Bytes) : Option Bytes :=
   | none => if dflt then some b else none
 
 /-- sender / repeated curve points / session (`MemberCommitments`, `MemberPublicKeySharePoints`) -/
-def repMsg (cv : Bytes → Option Bytes) (bs : Bytes) : Option Bytes := do
-  let fs ← parseMsg bs
-  guard' (strOk fs 3)
-  let s := lastVarint fs 1 % 4294967296
-  guard' (idxOk s)
-  let xs ← (lens fs 2).mapM cv
-  pure (putFields (fU 1 s ++ rep 2 xs ++ fB 3 (lastLen fs 3)))
+def repSpec (cv : Bytes → Option Bytes) : MsgSpec where
+  fields := [⟨1, .u32⟩, ⟨2, .rbytes⟩, ⟨3, .str⟩]
+  post
+    | [.n s, .l xs, .b sess] =>
+      if idxOk s then (xs.mapM cv).map fun xs' => [.n s, .l xs', .b sess] else none
+    | _ => none
 
 /-- repaired `beacon/dkg.ThresholdSigner.Unmarshal` (member index and share keys ≤ 255) -/
-def thresholdSigner (cvH cvD : Bytes → Option Bytes) (bs : Bytes) : Option Bytes := do
-  let fs ← parseMsg bs
-  let m ← mapBytes fs 4
-  guard' (strOk fs 3 && strOk fs 5)
-  let s := lastVarint fs 1 % 4294967296
-  guard' (idxOk s)
-  let gpk ← cvH (lastLen fs 2)
-  let share ← cvD (lastLen fs 3)
-  guard' (m.all fun (k, _) => idxOk k)
-  let m' ← m.mapM fun (k, v) => (cvH v).map fun v' => (k, v')
-  pure (putFields (fU 1 s ++ fB 2 gpk ++ fB 3 share ++ encMapBytes 4 m' ++ rep 5 (lens fs 5)))
+def thresholdSignerSpec (cvH cvD : Bytes → Option Bytes) : MsgSpec where
+  fields := [⟨1, .u32⟩, ⟨2, .bytes⟩, ⟨3, .str⟩, ⟨4, .rmsg 22⟩, ⟨5, .rstr⟩]
+  post
+    | [.n s, .b gpk, .b share, .ms es, .l ops] => do
+      guard' (idxOk s)                         -- fix 45827cd
+      let gpk' ← cvH gpk
+      let share' ← cvD share
+      let es' ← mapPost cvH es                 -- keys ≤ 255: fix 45827cd
+      pure [.n s, .b gpk', .b share', .ms es', .l ops]
+    | _ => none
 
-/-- `ThresholdSigner.Unmarshal` as it was: indexes truncated to `uint8`, colliding share keys
-    (1 and 257) overwrite each other in map-iteration order. Only the member index is modelled. -/
+/-- `ThresholdSigner.Unmarshal` / `signer.Unmarshal` as they were: indexes truncated to `uint8`
+    (colliding share keys 1 and 257 overwrite each other in map-iteration order). Only the
+    decoded member index is modelled. -/
 def thresholdSignerOrigIndex (bs : Bytes) : Option Nat :=
   (parseMsg bs).map fun fs => lastVarint fs 1 % 4294967296 % 256
+def signerOrigIndex (bs : Bytes) : Option Nat :=
+  (parseMsg bs).map fun fs => lastVarint fs 2 % 4294967296 % 256
 
-def membership (cvH cvD : Bytes → Option Bytes) (bs : Bytes) : Option Bytes := do
-  let fs ← parseMsg bs
-  guard' (strOk fs 2)
-  let sg ← thresholdSigner cvH cvD (lastLen fs 1)
-  pure (putFields (fB 1 sg ++ fB 2 (lastLen fs 2)))
+def membershipSpec (cvH cvD : Bytes → Option Bytes) : MsgSpec where
+  fields := [⟨1, .bytes⟩, ⟨2, .str⟩]
+  post
+    | [.b sg, .b ch] => ((thresholdSignerSpec cvH cvD).unmarshal sg).map fun sg' => [.b sg', .b ch]
+    | _ => none
 
-def identity (cvI : Bytes → Option Bytes) (bs : Bytes) : Option Bytes := do
-  let fs ← parseMsg bs
-  let pk ← cvI (lastLen fs 1)
-  pure (putFields (fB 1 pk))
+def identitySpec (cvI : Bytes → Option Bytes) : MsgSpec where
+  fields := [⟨1, .bytes⟩]
+  post
+    | [.b pk] => (cvI pk).map fun pk' => [.b pk']
+    | _ => none
 
 /-! ## dispatch -/
 
-def unmarshalD (o : Oracle) (d : Bool) (ty : String) (bs : Bytes) : Option (Option Bytes) :=
-  let simple := ["entry.SignatureShare", "tdkg.TSSRoundOne", "tdkg.TSSRoundThree",
-    "tsign.TSSRoundThree", "tsign.TSSRoundFour", "tsign.TSSRoundFive", "tsign.TSSRoundSix",
-    "tsign.TSSRoundSeven", "tsign.TSSRoundEight", "tsign.TSSRoundNine"]
-  let hashSigs := ["result.DKGResultHashSignature", "inactivity.ClaimSignature", "tdkg.ResultSignature"]
-  let accus := ["gjkr.SecretSharesAccusations", "gjkr.PointsAccusations", "gjkr.MisbehavedEphemeralKeys"]
-  let ephem := ["gjkr.EphemeralPublicKey", "tdkg.EphemeralPublicKey", "tsign.EphemeralPublicKey"]
-  if simple.contains ty then some (simple3.unmarshal bs)
-  else if hashSigs.contains ty then some (hashSig.unmarshal bs)
-  else if accus.contains ty then some (mapMsg false 2 3 privCv bs)
-  else if ephem.contains ty then some (mapMsg false 2 3 (olook o d 101) bs)
-  else match ty with
-  | "tdkg.TSSFinalization" => some (finalization.unmarshal bs)
-  | "announcer.Announcement" => some (announcement.unmarshal bs)
-  | "hs.Act1" => some (act1.unmarshal bs)
-  | "hs.Act2" => some (act2.unmarshal bs)
-  | "hs.Act3" => some (act3.unmarshal bs)
-  | "tecdsa.Signature" => some (signature.unmarshal bs)
-  | "tbtc.SigningDone" => some (signingDone.unmarshal bs)
-  | "tbtc.Noop" => some (some [])
-  | "tbtc.Heartbeat" => some (heartbeat.unmarshal bs)
-  | "tbtc.DepositSweep" => some (depositSweep bs)
-  | "tbtc.Redemption" => some (redemption bs)
-  | "tbtc.MovingFunds" => some (movingFunds bs)
-  | "tbtc.MovedFundsSweep" => some (movedFundsSweep.unmarshal bs)
-  | "tbtc.Coordination" => some (coordination bs)
-  | "tdkg.TSSRoundTwo" => some (mapMsg true 3 4 some bs)
-  | "tsign.TSSRoundOne" => some (mapMsg true 3 4 some bs)
-  | "tsign.TSSRoundTwo" => some (mapMsg false 2 3 some bs)
-  | "gjkr.PeerShares" => some (peerShares bs)
-  | "tdkg.PreParams" => some (preParams bs)
-  | "tecdsa.PrivateKeyShare" => some (privateKeyShare bs)
-  | "tbtc.Signer" => some (signer bs)
-  | "gjkr.MemberCommitments" => some (repMsg (olook o d 103) bs)
-  | "gjkr.MemberPublicKeySharePoints" => some (repMsg (olook o d 104) bs)
-  | "registry.ThresholdSigner" => some (thresholdSigner (olook o d 104) (olook o d 100) bs)
-  | "registry.Membership" => some (membership (olook o d 104) (olook o d 100) bs)
-  | "libp2p.Identity" => some (identity (olook o d 105) bs)
-  | _ => none
+/-- the dispatch table: every decoder type (all but `tbtc.Noop`, which ignores its input) with
+    its spec. The driver maps a type name to its position (`typeId`); model, monitor and theorems
+    work with the position. -/
+def table : List (String × (Oracle → Bool → MsgSpec)) := [
+  ("entry.SignatureShare", fun _ _ => simple3),
+  ("tdkg.TSSRoundOne", fun _ _ => simple3),
+  ("tdkg.TSSRoundThree", fun _ _ => simple3),
+  ("tsign.TSSRoundThree", fun _ _ => simple3),
+  ("tsign.TSSRoundFour", fun _ _ => simple3),
+  ("tsign.TSSRoundFive", fun _ _ => simple3),
+  ("tsign.TSSRoundSix", fun _ _ => simple3),
+  ("tsign.TSSRoundSeven", fun _ _ => simple3),
+  ("tsign.TSSRoundEight", fun _ _ => simple3),
+  ("tsign.TSSRoundNine", fun _ _ => simple3),
+  ("result.DKGResultHashSignature", fun _ _ => hashSig),
+  ("inactivity.ClaimSignature", fun _ _ => hashSig),
+  ("tdkg.ResultSignature", fun _ _ => hashSig),
+  ("gjkr.SecretSharesAccusations", fun _ _ => mapSpec3 privCv),
+  ("gjkr.PointsAccusations", fun _ _ => mapSpec3 privCv),
+  ("gjkr.MisbehavedEphemeralKeys", fun _ _ => mapSpec3 privCv),
+  ("gjkr.EphemeralPublicKey", fun o d => mapSpec3 (olook o d 101)),
+  ("tdkg.EphemeralPublicKey", fun o d => mapSpec3 (olook o d 101)),
+  ("tsign.EphemeralPublicKey", fun o d => mapSpec3 (olook o d 101)),
+  ("tdkg.TSSFinalization", fun _ _ => finalization),
+  ("announcer.Announcement", fun _ _ => announcement),
+  ("hs.Act1", fun _ _ => act1),
+  ("hs.Act2", fun _ _ => act2),
+  ("hs.Act3", fun _ _ => act3),
+  ("tecdsa.Signature", fun _ _ => signature),
+  ("tbtc.SigningDone", fun _ _ => signingDone),
+  ("tbtc.Heartbeat", fun _ _ => heartbeat),
+  ("tbtc.DepositSweep", fun _ _ => depositSweepSpec),
+  ("tbtc.Redemption", fun _ _ => redemptionSpec),
+  ("tbtc.MovingFunds", fun _ _ => movingFundsSpec),
+  ("tbtc.MovedFundsSweep", fun _ _ => movedFundsSweep),
+  ("tbtc.Coordination", fun _ _ => coordinationSpec),
+  ("tdkg.TSSRoundTwo", fun _ _ => mapSpec4 some),
+  ("tsign.TSSRoundOne", fun _ _ => mapSpec4 some),
+  ("tsign.TSSRoundTwo", fun _ _ => mapSpec3 some),
+  ("gjkr.PeerShares", fun _ _ => peerSharesSpec),
+  ("tdkg.PreParams", fun _ _ => preParamsSpec),
+  ("tecdsa.PrivateKeyShare", fun _ _ => privateKeyShareSpec),
+  ("tbtc.Signer", fun _ _ => signerSpec),
+  ("gjkr.MemberCommitments", fun o d => repSpec (olook o d 103)),
+  ("gjkr.MemberPublicKeySharePoints", fun o d => repSpec (olook o d 104)),
+  ("registry.ThresholdSigner", fun o d => thresholdSignerSpec (olook o d 104) (olook o d 100)),
+  ("registry.Membership", fun o d => membershipSpec (olook o d 104) (olook o d 100)),
+  ("libp2p.Identity", fun o d => identitySpec (olook o d 105))]
+
+/-- type id of `tbtc.Noop` (`NoopProposal.Unmarshal` ignores its input) -/
+def noopId : Nat := 44
+
+/-- type name → type id -/
+def typeId (name : String) : Option Nat :=
+  if name = "tbtc.Noop" then some noopId else table.findIdx? (·.1 == name)
+
+def specOf (o : Oracle) (d : Bool) (ty : Nat) : Option MsgSpec :=
+  (table[ty]?).map fun e => e.2 o d
+
+def unmarshalD (o : Oracle) (d : Bool) (ty : Nat) (bs : Bytes) : Option (Option Bytes) :=
+  match specOf o d ty with
+  | some M => some (M.unmarshal bs)
+  | none => if ty = noopId then some (some []) else none
 
 /-- prediction for one decoder call: `none` = unknown type, or a library-parsed blob of the
     input is missing from the oracle and matters (the two default readings differ). -/
-def unmarshal (o : Oracle) (ty : String) (bs : Bytes) : Option (Option Bytes) :=
+def unmarshal (o : Oracle) (ty : Nat) (bs : Bytes) : Option (Option Bytes) :=
   let r := unmarshalD o false ty bs
   if r == unmarshalD o true ty bs then r else none
 
@@ -560,7 +617,7 @@ def propHolds (wf : Bool) (input : Bytes) (o : Obs) : Bool :=
 /-- second clause, relative to the specification (the model): an accepted value is the canonical
     form the specification assigns to the input — nothing of the input is silently dropped or
     truncated, every invariant holds — and a canonical well-formed encoding is not rejected. -/
-def specHolds (o : Oracle) (ty : String) (input : Bytes) (obs : Obs) : Bool :=
+def specHolds (o : Oracle) (ty : Nat) (input : Bytes) (obs : Obs) : Bool :=
   match unmarshal o ty input with
   | none => true
   | some r =>
@@ -571,7 +628,7 @@ def specHolds (o : Oracle) (ty : String) (input : Bytes) (obs : Obs) : Bool :=
       | none => true)
     | .ok out _ => r == some out
 
-def holds (o : Oracle) (ty : String) (wf : Bool) (input : Bytes) (obs : Obs) : Bool :=
+def holds (o : Oracle) (ty : Nat) (wf : Bool) (input : Bytes) (obs : Obs) : Bool :=
   propHolds wf input obs && specHolds o ty input obs
 
 end KeepVerif.C19
